@@ -1,10 +1,20 @@
-"""C12 — printed RREL expressions re-parse to equivalent expressions."""
+"""C12 — printed RREL expressions re-parse to equivalent expressions.
+
+prove:  Props/C12.v against Gen/SrcRrelSyntax.v (the __repr__ bodies and the regex terminals of
+        textx/scoping/rrel.py, translated on every run by tools/translate/rrel_syntax_tr.py).
+tie:    the same model (print_src, parse_text) evaluated in Coq on generated trees and on mutated
+        texts, compared with rrel.py (str / parse) on the same inputs.
+oracle: parse(str(parse(text))) has the structure and flags of parse(text).
+"""
 import re
 from vt import core
 from vt.main import decide
+from translate import rrel_syntax_tr
 
 NAMES = ["a", "b", "parent", "parent2", "_x", "name1", "m", "p", "X", "packages", "classes"]
-FIXED = ["x", "a b", "it's", 'q"q', "", "a\\b", "\u00e9t\u00e9", "p.q", "a,b)", "~"]
+FIXED = ["x", "a b", "it's", 'q"q', "", "a\\b", "\u00e9t\u00e9", "p.q", "a,b)", "~",
+         "a\\'b", 'a\\"b', "a\\'b\"c", "q\\\"q'z", "\\\\'", "+m:", "parent(x)", "\\\\\\'s"]
+FIXED_BAD = ["a\\", "it's \"x\"", "\\\\"]     # not writable as a string_value whatever follows (outside the theorem's hypotheses)
 FLAGS = ["", "", "m", "p", "mp", "pm", "mm"]
 
 
@@ -16,7 +26,7 @@ def gen_elem(r, depth, head):
             return ("Nav", r.choice(NAMES), True, None)
         if m == "t":
             return ("Nav", r.choice(NAMES), False, None)
-        return ("Nav", r.choice(NAMES), False, r.choice(FIXED))
+        return ("Nav", r.choice(NAMES), False, r.choice(FIXED_BAD) if r.below(25) == 0 else r.choice(FIXED))
     if k == "parent":
         return ("Parent", r.choice(NAMES))
     if k == "br":
@@ -92,7 +102,107 @@ def size(seq):
     return sum(1 + (size(e[1]) if e[0] in ("Br", "Star") else 0) for p in seq for e in p)
 
 
-IMPORTS = "From TxV Require Import Core.Base Core.Show Model.RrelSyntax.\nOpen Scope string_scope."
+IMPORTS_HEAD = ("From TxV Require Import Core.Base Core.Show Model.Rx Model.RrelSyntax Model.RrelSyntaxText.\n"
+                "Open Scope string_scope.\n")
+IMPORTS_DEFS = (
+           # printing long strings is what costs time in coqc: texts and dumps are compared through a hash
+           "Fixpoint hs (s : string) (h : N) : N := match s with EmptyString => h\n"
+           "  | String a t => hs t (N.modulo (h * 1000003 + Ascii.N_of_ascii a) 1099511627776) end.\n"
+           "Definition rt (e : expr) : string := match parse_text U (print_src e) with\n"
+           "  | Some e' => if String.eqb (show_expr e') (show_expr e) then \"=\" else show_N (hs (show_expr e') 7)\n"
+           "  | None => \"None\" end.\n"
+           "Definition tr (e : expr) : string := show_N (hs (show_str (print_src e)) 7) ++ \" \" ++ rt e ++ \" \" ++ show_bool (lexable e).\n"
+           "Definition pt (s : list N) : string := match parse_text U s with Some e => show_N (hs (show_expr e) 7) | None => \"None\" end.\n"
+           "Definition ptf (s : list N) : string := show_opt show_expr (parse_text U s).")
+
+
+def ucls_table(texts):
+    """Python's classification (bit 0 \\d, bit 1 \\w, bit 2 \\s) of the non-ASCII code points of the texts:
+    the parameter `u` of the model (the theorem holds for every u)."""
+    cps = sorted({c for t in texts for c in t if ord(c) >= 128})
+    ent = []
+    for c in cps:
+        v = (1 if re.match(r"\d", c) else 0) | (2 if re.match(r"\w", c) else 0) | (4 if re.match(r"\s", c) else 0)
+        ent.append("(%d%%N, %d%%N)" % (ord(c), v))
+    return "Definition U : N -> N := ucls_of_table [%s].\n" % "; ".join(ent)
+
+
+def hs(text):
+    h = 7
+    for b in text.encode("ascii"):
+        h = (h * 1000003 + b) % 1099511627776
+    return str(h)
+
+
+def has_unesc(q, f):
+    """Model/RrelSyntax.v unesc."""
+    i = 0
+    while i < len(f):
+        if f[i] == q:
+            return True
+        if f[i] == "\\" and i + 1 < len(f):
+            i += 2 if f[i + 1] == q else 1
+        else:
+            i += 1
+    return False
+
+
+# the printed text of a tree as the (repaired) __repr__ methods give it; only used to avoid printing
+# every text from Coq: the model's own text is fetched wherever the hashes differ
+def p_elem(e):
+    if e[0] == "Nav":
+        if e[3] is not None:
+            q = '"' if has_unesc("'", e[3]) else "'"
+            return q + e[3] + q + "~" + e[1]
+        return e[1] if e[2] else "~" + e[1]
+    if e[0] == "Parent":
+        return "parent(%s)" % e[1]
+    if e[0] == "Dots":
+        return "." * e[1]
+    return "(" + p_seq(e[1]) + ")" + ("*" if e[0] == "Star" else "")
+
+
+def p_path(p):
+    if p[0][0] == "Dots":
+        return p_elem(p[0]) + ".".join(p_elem(e) for e in p[1:])
+    return ".".join(p_elem(e) for e in p)
+
+
+def p_seq(s):
+    return ",".join(p_path(p) for p in s)
+
+
+def p_expr(seq, fl):
+    return ("+" + fl + ":" if fl else "") + p_seq(seq)
+
+
+FINDING_TAG = "inexpressible_fixed_name"
+
+
+def str_ok(q, f):
+    """Model/RrelSyntaxText.v str_ok: f can be written between quotes q whatever follows."""
+    i = 0
+    while i < len(f):
+        c = f[i]
+        if c == q:
+            return False
+        if c == "\\":
+            if i + 1 >= len(f):
+                return False
+            i += 2 if f[i + 1] == q else 1
+        else:
+            i += 1
+    return True
+
+
+def expressible(f):
+    return str_ok("'", f) or str_ok('"', f)
+
+
+def tags_of(o):
+    """classifier of the known finding: some fixed name of the parsed tree has no string_value spelling
+    that is independent of what follows (mirrors `expressible` of the theorem's hypothesis)."""
+    return [FINDING_TAG] if any(not expressible(uncanon(f)) for f in o.get("fixed", [])) else []
 
 
 def mutate(r, t):
@@ -113,90 +223,170 @@ def mutate(r, t):
     return t[:i] + t[i] + t[i:]
 
 
+CORPUS = [([[("Nav", "a", True, None), ("Nav", "b", True, None)]], "p"),
+          ([[("Nav", "a", False, "it's")]], ""),
+          ([[("Br", [[("Br", [[("Nav", "a", True, None)]])], [("Br", [[("Nav", "b", True, None)]])]]), ("Nav", "c", True, None)]], "mp"),
+          ([[("Star", [[("Br", [[("Nav", "a", True, None)]]), ("Br", [[("Nav", "b", True, None)]])]])]], ""),
+          ([[("Star", [[("Dots", 2)]]), ("Nav", "parent", True, None)], [("Dots", 3)]], "m")]
+
+
+def load_corpus():
+    """corpus/C12/*.json: {"trees": [[seq, flags], ...], "texts": [...]} (minimised earlier failures)."""
+    import json
+    import os
+    trees, texts = [], []
+    d = os.path.join(core.VERIF, "corpus", "C12")
+    if os.path.isdir(d):
+        for f in sorted(os.listdir(d)):
+            if f.endswith(".json"):
+                j = json.load(open(os.path.join(d, f), encoding="utf-8"))
+                for seq, fl in j.get("trees", []):
+                    trees.append((untuple(seq), fl))
+                texts += j.get("texts", [])
+    return trees, texts
+
+
+def untuple(seq):
+    def el(e):
+        if e[0] in ("Br", "Star"):
+            return (e[0], untuple(e[1]))
+        return tuple(e)
+    return [[el(e) for e in p] for p in seq]
+
+
 def run(chk):
-    chk.prove([])
-    n = 4000 if chk.thorough else 600
-    asts = []
-    # corpus: shapes from the grammar comments and earlier failures
-    corpus = [([[("Nav", "a", True, None), ("Nav", "b", True, None)]], "p"),
-              ([[("Nav", "a", False, "it's")]], ""),
-              ([[("Br", [[("Br", [[("Nav", "a", True, None)]])], [("Br", [[("Nav", "b", True, None)]])]]), ("Nav", "c", True, None)]], "mp"),
-              ([[("Star", [[("Br", [[("Nav", "a", True, None)]]), ("Br", [[("Nav", "b", True, None)]])]])]], ""),
-              ([[("Star", [[("Dots", 2)]]), ("Nav", "parent", True, None)], [("Dots", 3)]], "m")]
-    asts += corpus
+    chk.prove([rrel_syntax_tr.translate])
+    n = 2400 if chk.thorough else 300
+    ctrees, ctexts = load_corpus()
+    asts = list(CORPUS) + ctrees
     for i in range(n):
         r = chk.rng.split(i)
         asts.append((gen_seq(r, r.range(0, 3 if chk.thorough and i % 10 == 0 else 2)), r.choice(FLAGS)))  # nesting <= 2: Arpeggio re-parses nested brackets ~10x per level
-    exprs = []
-    for seq, fl in asts:
-        e = "{| eseq := %s; eflags := %s |}" % (c_seq(seq), c_str(fl))
-        exprs.append("show_str (print %s)" % e)
-        exprs.append("show_opt show_expr (parse (print %s))" % e)
-    vals, errs = core.coq_eval("C12a", IMPORTS, exprs, shard=400)
-    disagreements, failures = [], []
-    if errs:
-        disagreements.append({"case": "coq evaluation", "model": errs[:2]})
-    texts = []
-    for k, (seq, fl) in enumerate(asts):
-        pv = vals[2 * k]
-        texts.append(uncanon(pv) if pv is not None else None)
-    # second stream: mutated texts
-    muts = []
-    nm = 3000 if chk.thorough else 500
-    valid_texts = [t for t in texts if t]
+    # the texts are computed by the harness printer so that both evaluation streams go to Coq in one round;
+    # the model's own text is fetched wherever its hash differs
+    mine = [p_expr(seq, fl) for seq, fl in asts]
+    muts = list(ctexts)
+    nm = 2000 if chk.thorough else 260
     for i in range(nm):
         r = chk.rng.split("m%d" % i)
-        t = r.choice(valid_texts)
+        t = r.choice(mine)
         for _ in range(r.range(1, 3)):
             t = mutate(r, t)
         muts.append(t)
-    mvals, merrs = core.coq_eval("C12b", IMPORTS, ["show_opt show_expr (parse %s)" % c_str(t) for t in muts], shard=400)
-    if merrs:
-        disagreements.append({"case": "coq evaluation (mutated)", "model": merrs[:2]})
-    allt = [t for t in texts if t is not None] + muts
+    IMPORTS = IMPORTS_HEAD + ucls_table(mine + muts) + IMPORTS_DEFS
+    exprs = ["tr {| eseq := %s; eflags := %s |}" % (c_seq(seq), c_str(fl)) for seq, fl in asts] + ["pt %s" % c_str(t) for t in muts]
+    allvals, errs = core.coq_eval("C12a", IMPORTS, exprs, shard=450)
+    vals, mvals = allvals[:len(asts)], allvals[len(asts):]
+    disagreements, failures = [], []
+    if errs:
+        disagreements.append({"case": "coq evaluation", "model": errs[:2]})
+    texts, rts, lxs, refetch = [], [], [], []
+    for k, (seq, fl) in enumerate(asts):
+        v = vals[k].split(" ") if vals[k] else [None, None, None]
+        texts.append(mine[k] if v[0] is not None else None)
+        rts.append(v[1])
+        lxs.append(v[2])
+        if v[0] is not None and v[0] != hs(core.canon_text(mine[k])):
+            refetch.append(k)
+    if refetch:   # the harness printer and the model's differ (an edited __repr__): take the model's texts
+        chk.stat("texts_fetched_from_model", len(refetch))
+        fv, ferrs = core.coq_eval("C12f", IMPORTS, ["show_str (print_src {| eseq := %s; eflags := %s |})" % (c_seq(asts[k][0]), c_str(asts[k][1])) for k in refetch], shard=450)
+        if ferrs:
+            disagreements.append({"case": "coq evaluation (texts)", "model": ferrs[:2]})
+        for k, pv in zip(refetch, fv):
+            texts[k] = uncanon(pv) if pv is not None else None
+
+    def full_model(t):
+        fv, _ = core.coq_eval("C12d", IMPORTS, ["ptf %s" % c_str(t)])
+        return fv[0] if fv else None
+    allt = sorted(set([t for t in texts if t is not None] + muts))
     chunks = [allt[i::core.NPROC] for i in range(core.NPROC)]
     chunks = [c for c in chunks if c]
     outs = core.run_impl_parallel("c12", [{"texts": ch} for ch in chunks])
     impl = {}
     for ch, o in zip(chunks, outs):
+        if not isinstance(o, list):
+            disagreements.append({"case": "runner", "impl": o})
+            continue
         for t, x in zip(ch, o):
             impl[t] = x
+    oracle_seen = set()
+
+    def oracle(t, o):
+        if t in oracle_seen:
+            return
+        oracle_seen.add(t)
+        if o["ok"] and (o["redump"] != o["dump"]):
+            failures.append({"case": {"text": t}, "impl": o, "tags": tags_of(o),
+                             "what": "parse(str(parse(text))) differs from parse(text) in structure or flags"})
+
+    nlex = 0
     for k, (seq, fl) in enumerate(asts):
         t = texts[k]
-        if t is None:
+        if t is None or t not in impl:
             continue
-        want = d_expr(seq, fl)
-        model_rt = vals[2 * k + 1]
         o = impl[t]
-        chk.count(want, nontrivial=size(seq) >= 2)
-        chk.stat("flags=" + (fl or "-"))
-        chk.stat("size=%d" % min(size(seq), 8))
-        # the model's own round trip must hold (it is the theorem; evaluating it is a cheap cross-check)
-        if model_rt != want:
-            disagreements.append({"case": {"ast": want}, "model": model_rt, "impl": "(model round trip differs from its input)"})
-        # implementation vs model: parse of the model's printed text gives the tree; str() gives the text back
-        if not o["ok"] or o["dump"] != want or o["printed"] != t:
-            disagreements.append({"case": {"ast": want, "text": t}, "impl": o, "model": {"printed": t, "parsed": model_rt}})
-        # property oracle on the implementation
-        if o["ok"] and (o["redump"] != o["dump"]):
-            failures.append({"case": {"text": t}, "impl": o, "what": "parse(str(parse(text))) differs from parse(text) in structure or flags", "tags": []})
+        want = d_expr(seq, fl)
+        rt, lexable = rts[k], lxs[k]
+        chk.count("ast:" + want, nontrivial=size(seq) >= 2)
+        chk.stat("flags:" + (fl or "-"))
+        chk.stat("size:%d" % min(size(seq), 8))
+        chk.stat("lexable" if lexable == "T" else "not-lexable")
+        # what the theorem states, cross-checked by evaluation (every generated tree is well formed)
+        if lexable == "T":
+            nlex += 1
+            if rt != "=":
+                disagreements.append({"case": {"ast": want}, "model": rt, "impl": "(the model contradicts C12_roundtrip on a lexable tree)"})
+        # implementation vs model: parsing the model's printed text gives the same tree as the model's own
+        # parser; when that is the printed tree itself, str() gives the text back
+        m_ok = rt != "None"
+        m_hash = hs(want) if rt == "=" else rt
+        if rt is not None and (o["ok"] != m_ok or (m_ok and hs(o["dump"]) != m_hash) or (rt == "=" and o["printed"] != t)):
+            if len(disagreements) < 8:
+                disagreements.append({"case": {"ast": want, "text": t}, "impl": o, "model": {"printed": t, "parsed": want if rt == "=" else full_model(t)}})
+            else:
+                disagreements.append({"case": {"ast": want, "text": t}})
+        oracle(t, o)
         if chk.cov["evaluations"] % 150 == 5:
             chk.sample({"text": t, "tree": want})
     acc = 0
     for t, mv in zip(muts, mvals):
+        if t not in impl:
+            continue
         o = impl[t]
         chk.count("mut:" + t, nontrivial=o["ok"])
         acc += 1 if o["ok"] else 0
         m_ok = mv is not None and mv != "None"
-        if mv is not None and (m_ok != o["ok"] or (m_ok and mv != o["dump"])):
-            disagreements.append({"case": {"text": t}, "impl": o, "model": mv})
-        if o["ok"] and o["redump"] != o["dump"]:
-            failures.append({"case": {"text": t}, "impl": o, "what": "parse(str(parse(text))) differs from parse(text) in structure or flags", "tags": []})
+        if mv is not None and (m_ok != o["ok"] or (m_ok and mv != hs(o["dump"]))):
+            disagreements.append({"case": {"text": t}, "impl": o, "model": full_model(t) if len(disagreements) < 8 else mv})
+        oracle(t, o)
     chk.stat("mutated_accepted", acc)
     chk.stat("mutated_rejected", len(muts) - acc)
+    chk.stat("lexable_trees", nlex)
     chk.cov["rule"] = ("%d random RREL trees (bracket nesting<=2; navigation/~/fixed-name/parent()/dots/^/brackets/*/commas; flags '', m, p, mp, pm, mm; names incl. 'parent', 'm', 'p'; fixed names "
-                       "with quotes, spaces, backslash, non-ASCII) printed by the model and parsed/printed by rrel.py, plus %d mutated texts (valid and invalid) parsed by both; "
-                       "non-trivial = tree with >=2 nodes / accepted mutated text; distinct by tree or text" % (len(asts), len(muts)))
-    chk.assumptions += ["lexer+token-parser model of the scannerless Arpeggio parser (validated on valid and invalid texts)",
-                        "non-ASCII identifier characters are outside the model (names are ASCII; fixed names may be any text)"]
+                       "with quotes, escaped quotes, spaces, backslash, non-ASCII) printed by the model's translated __repr__ bodies and parsed/printed by rrel.py, plus %d mutated texts (valid and invalid) "
+                       "lexed with the translated regexes and parsed by both; non-trivial = tree with >=2 nodes / accepted mutated text; distinct by tree or text" % (len(asts), len(muts)))
+    chk.assumptions += ["token-level model of the scannerless Arpeggio parser: terminals (translated regexes, Model/Rx.v semantics) found after whitespace skipping, then the PEG order of rrel.py:6-56 over tokens "
+                        "(validated on valid and invalid texts; the PEG, the visitor and the constructors are pinned by the translator)",
+                        "Model/Rx.v is the semantics of Python's re for the translated regexes (validated by C04)",
+                        "non-ASCII identifier characters are outside the theorem's hypotheses (names are ASCII identifiers; fixed names may be any text)"]
     decide(chk, failures, disagreements)
+
+
+def replay(rep):
+    """Re-run a recorded failing input on the implementation (./check C12 --replay out/C12/fail_1.json)."""
+    import json
+    case = rep.get("case") or {}
+    text = case.get("text") if isinstance(case, dict) else None
+    if text is None:
+        print(json.dumps(rep, indent=1))
+        return 0
+    o = core.run_impl_parallel("c12", [{"texts": [text]}])[0][0]
+    print("text:", repr(text))
+    print("implementation now answers:", json.dumps(o))
+    bad = o["ok"] and o["redump"] != o["dump"]
+    if bad:
+        print("property violated: parse(str(parse(text))) differs from parse(text); tags:", tags_of(o))
+    else:
+        print("property holds on this input" if o["ok"] else "the text is not accepted")
+    return 1 if bad else 0
